@@ -48,7 +48,7 @@ def bundle_obligations(ctx, pid, propdef, tier):
         obls.append(Obl("%s.bundle.%s" % (pid, "_".join(seq) or "empty"), pid, "harness/C08/bundle.c", entry="h_bundle",
                         defines=dict({"RTOSC_C": raw, "BN_K": str(len(seq)), "BN_KINDS": kinds, propdef: None}, **({"ELMAX": "136"} if big else {})), mode="bounded",
                         bound="<=3 elements, nesting depth <=2, element shapes fixed, payload/time tag/capacity symbolic",
-                        cbmc=["--unwind", "460" if big else "260", "--unwinding-assertions"], timeout=1500, mem_gb=10,
+                        cbmc=["--unwind", "460" if big else "260", "--unwinding-assertions"], timeout=500, mem_gb=10,
                         case={"elements": list(seq)}))
     return obls
 
